@@ -8,14 +8,14 @@ func sortStrings(s []string) { sort.Strings(s) }
 func init() {
 	Props["C01"] = &PropSpec{
 		Level: "other",
-		Rules: []string{"R05", "R08", "R06", "R07", "R03", "R01", "R18b", "R35"},
+		Rules: []string{"R05", "R08", "R06", "R07", "R03", "R04", "R01", "R18b", "R43", "R35"},
 		Explanation: "Crossing-freedom is the snap-rounding theorem applied to this implementation; its premises are decided for all polygons, levels, flags and grids: (i) the hot-pixel set holds the pixel of every vertex of every ring before any edge is routed and only insertCoord writes it (R05, R08), (ii) every edge including each ring's closing edge is routed through the index, and routed points — never input points — are what is emitted (R06, R07), (iii) pixel ownership (left/bottom owned) is encoded consistently in all six places, lineIntersects applies each border rule under the facts it belongs to, and conversions are index-aligned (R03, R01); (iv) the routed lists of different levels never share storage (R18b).",
 		Decided: []string{"every vertex of every ring is indexed before snapping (R05)", "only insertCoord adds hot pixels, after the range check (R08)", "every segment incl. the closing one is routed once through the index (R06)", "no input coordinate can reach an output structure; output coordinates are stored pixel centres (R07)", "half-open ownership tables agree and the five border rules of the segment/pixel test are present (R03)", "integer/float conversions are index-aligned (R01)", "per-level values own their storage (R18b)"},
 		NotDecided: []string{"numeric correctness of lineIntersects / float intersection for every segment-pixel pair", "that spike removal and ring splitting never invent an edge (data dependent; DESIGN F5)", "interior of a segment passing exactly through an excluded pixel corner"},
 	}
 	Props["C02"] = &PropSpec{
 		Level: "other",
-		Rules: []string{"R01", "R02", "R03", "R04", "R08", "R06", "R18b", "R35"},
+		Rules: []string{"R01", "R02", "R03", "R04", "R08", "R06", "R18b", "R43", "R35"},
 		Explanation: "Structural necessary conditions of exact hot-pixel routing, for all segments and pixel sets: the integer intersection point is (x, y) (R01); every x/y pair of formulas in pixel addressing is mirror-symmetric with no cross-axis operand (R02); the six encodings of the half-open pixel agree, derived from Extent.Vertices/Edges (R03); the 2x2 decision table marks a quadrant certain only when it contains an endpoint inside the parent, uses the mutex only for the two quadrants adjacent to pt1 in the diagonal case, and lists quadrants in order of travel (R04); routed pixels come only from the stored set (R08); per-segment clean-up receives exactly the routed list (R06); per-level results own their storage (R18b).",
 		Decided: []string{"index alignment of SegmentIntersect (R01)", "axis symmetry of address/extent formulas (R02)", "agreement of the half-open tables (R03)", "shape of the quadrant decision table and its consumer loop (R04)", "routed output comes only from the hot-pixel set (R08)", "clean-up per segment and level (R06)"},
 		NotDecided: []string{"numeric correctness of the float intersection", "completeness of pruning by infinite quadrants", "exhaustive tie enumeration on a lattice (that is an execution technique)"},
@@ -29,7 +29,7 @@ func init() {
 	}
 	Props["C04"] = &PropSpec{
 		Level: "other",
-		Rules: []string{"R07", "R08", "R05", "R18b", "R46"},
+		Rules: []string{"R07", "R08", "R05", "R18b", "R43", "R46"},
 		Explanation: "Clause 1 only (every output vertex is the pixel centre of some input vertex), for all inputs: outputs are centroids of stored quadrants (R07); quadrants are stored only by insertCoord, only for addresses computed from polygon vertices after the range check (R08); every vertex is inserted (R05); per-level lists never alias (R18b). One necessary condition of clause 3: the containment predicate used for hole matching counts boundary points as inside and examines every segment (R46).",
 		Decided:     []string{"clause 1: every output vertex is the pixel centre of an input vertex", "necessary condition of clause 3: ringContains answers outside only after all segments were examined (R46)"},
 		NotDecided:  []string{"clause 2: half-pixel Chebyshev distance of every edge point", "clause 3: coverage equivalence beyond one pixel; holes stay holes, parts stay parts"},
